@@ -24,6 +24,8 @@ the sites in `$VERIF_REPO/ariadne_codegen` with the `ast` module:
   state:cache   @lru_cache / @cache / @functools.* decorated function (key: decorator + function name)
   state:mutate  a module-level container (by name, any file) mutated: .setdefault/.update/.append/.../ x[k] = v / del
   state:global  `global NAME` statement
+  fs          file-system access: <receiver>.exists/is_dir/is_file/read_text/mkdir/write_text/unlink/...(...), open(...),
+              shutil.*, os.remove/rename/makedirs/...  (what is read, what is written, what is tested)
 
 A *set expression* is recognised by a conservative type inference by NAME: names/attributes annotated with
 something containing Set[...]/set[...]/set, assigned from a set expression, tuple-unpacked from a function
@@ -51,6 +53,10 @@ LISTING = {"glob", "rglob", "iterdir", "listdir", "walk", "scandir"}
 EXCLUDE_DIRS = ("client_generators/dependencies",)
 # text-to-text stages between the generated AST and the file: isort's section placement consults the filesystem
 # unless it is configured not to, so HOW it is called is part of the site
+# file-system access: what the generator reads and writes (receiver and method; arguments elided)
+FS_METHODS = {"exists", "is_dir", "is_file", "read_text", "read_bytes", "mkdir", "write_text", "write_bytes", "unlink",
+              "rmdir", "rename", "touch", "stat", "lstat", "iterdir", "samefile", "chmod", "symlink_to"}
+FS_FUNCS = {"open", "io.open", "os.listdir", "os.stat"}
 FORMATTERS = {"isort.code", "isort.api.sort_code_string", "format_str", "black.format_str", "fix_code",
               "autoflake.fix_code", "isort.file", "isort.stream"}
 
@@ -369,6 +375,13 @@ class FileScan:
                 if cn in LISTING:
                     self.add(n, "listing")
                 src = ast.unparse(n.func)
+                if (isinstance(n.func, ast.Attribute) and n.func.attr in FS_METHODS) or src in FS_FUNCS or src.startswith(
+                        ("shutil.", "os.remove", "os.unlink", "os.rename", "os.makedirs", "os.mkdir", "os.rmdir", "os.path.exists",
+                         "os.path.isfile", "os.path.isdir", "tempfile.")):
+                    recv = ast.unparse(n.func.value) if isinstance(n.func, ast.Attribute) else ""
+                    recv = re.sub(r"\s+", " ", recv)
+                    self.sites.append((self.rel, self.qualname(n), "fs",
+                                       (recv + "." + n.func.attr if recv else src) + "(...)", n.lineno))
                 if src in FORMATTERS:
                     self.add(n, "formatter")
                 if (isinstance(n.func, ast.Name) and cn in ("hash", "id")) or re.match(
